@@ -1,5 +1,6 @@
 import AaVerif.Filter
 import AaVerif.FilterLemmas
+import AaVerif.FilterPara
 import AaVerif.Generated.Dists
 /-!
 # C03 — only/exclude directives keep exactly the rules meant for the build target
@@ -7,9 +8,8 @@ import AaVerif.Generated.Dists
 `Filter.model` (the step-by-step model of `directive.Run`) is run against the real code on
 every check; `Filter.spec` is the line-level statement of the property, and the real code is
 judged against it on every well-formed text (`Filter.wf`).  The theorems below are about the
-specification and the decision logic, and the refinement `model = spec` for the inline form
-(`C03_refines_inline_partial`: any number of directives; proved in `FilterLemmas.lean`); for guarded
-paragraphs the refinement is validated by evaluation, not proved (stated in DESIGN.md).
+specification and the decision logic, and the refinement `model = spec` (`C03_refines_partial`:
+inline rules and guarded paragraphs, any number of directives; `FilterLemmas.lean`, `FilterPara.lean`).
 -/
 namespace C03
 open Str Lines Filter
@@ -138,5 +138,42 @@ example : wfInline (splitNl "  /a r, #aa:only apt\n  x  /a r, #aa:only apt\n".to
 
 /-- … and a guarded paragraph (marker alone on its line) is outside the inline class -/
 example : wfInline (splitNl "  #aa:only apt\n  /a r,\n\n".toList) = false := by decide +kernel
+
+/-! ## Refinement with guarded paragraphs
+
+When a paragraph directive does not select the target, the Go code removes every match of the regular expression
+`(?s)` + quoted marker text + `\n.*?\n\n` from the whole text.  In a well-formed layout that is exactly the marker line,
+the lines of the paragraph and the blank line that ends it.  (Before the fix commit the marker text was not quoted: a dot in
+`apparmor4.1` matched any character, so a paragraph guarded by a different marker could be removed with it — found when the
+proof asked for the hypothesis "no dot in the marker"; replayed on every run, see `gen/c03.py`.) -/
+
+/-- **`model = spec`** (partial: the layouts outside `wfText`).  For EVERY text in which each directive is either after a
+rule on its own line or a marker alone on its line followed by a non-empty paragraph of marker-free lines, a blank line
+and at least one more line, and in which the text of a directive line occurs in no other line — any number of
+directives, in any order — the step-by-step model of `directive.Run` returns exactly the text of the line-level
+specification. -/
+theorem C03_refines_partial (tg : Target) (t : List Char) (h : wfText t = true) :
+    model tg t = some (specText tg t) := model_eq_spec tg t h
+
+/-- inline rules, a kept paragraph and a dropped one in one text (debian, ABI 4, version 4.1) -/
+def mixedSample : List Char :=
+  "profile foo {\n  @{bin}/apt rPx, #aa:only apt\n\n  #aa:only apparmor4.1\n  userns,\n  mqueue r type=posix /,\n\n  /etc/a r,\n\n  #aa:exclude debian (test.) [x]\n  /etc/b r,\n\n  /etc/c r,   #aa:exclude abi4\n}\n".toList
+
+example : wfText mixedSample = true := by decide +kernel
+
+example : model ⟨"debian".toList, "apt".toList, "abi4".toList, "apparmor4.1".toList⟩ mixedSample =
+    some "profile foo {\n  @{bin}/apt rPx,\n\n\n  userns,\n  mqueue r type=posix /,\n\n  /etc/a r,\n\n\n}\n".toList := by
+  rw [C03_refines_partial _ _ (by decide +kernel)]
+  decide +kernel
+
+/-- what stays outside: a paragraph that is not closed by a blank line followed by more text -/
+example : wfText "  #aa:only apt\n  /a r,\n".toList = false := by decide +kernel
+
+/-- the two markers of the regression: after the fix the second paragraph stays on a 4.1 target -/
+example : model ⟨"arch".toList, "pacman".toList, "abi4".toList, "apparmor4.1".toList⟩
+    "p {\n  #aa:exclude apparmor4.1\n  /a r,\n\n  #aa:exclude apparmor4x1\n  /b r,\n\n  /c r,\n}\n".toList =
+    some "p {\n\n  /b r,\n\n  /c r,\n}\n".toList := by
+  rw [C03_refines_partial _ _ (by decide +kernel)]
+  decide +kernel
 
 end C03
